@@ -120,6 +120,8 @@ class Callable_:
             if arg.arg == name:
                 if name in self.bind:
                     return self.bind[name]
+                if not self.closure:
+                    return None  # the default of a method / module-level function is not evaluated in the creating scope
                 return d  # default-argument capture `x=outer` (evaluated in the creating scope), or None: a real parameter
         if (a.vararg is not None and a.vararg.arg == name) or (a.kwarg is not None and a.kwarg.arg == name):
             return None
@@ -196,6 +198,77 @@ def _compose(prog, fi, cb, depth):
     return Callable_(inner.fnode, bind, inner.closure, inner.fi)
 
 
+def _scope_binds(fi, name):
+    """is `name` a parameter or a local (assignment, def, class, import, loop/with/except target) of function fi
+    or of a function enclosing it?  Such a name does not denote a module-level object."""
+    f = fi
+    while f is not None:
+        a = f.node.args
+        if name in [x.arg for x in a.posonlyargs + a.args + a.kwonlyargs] or (a.vararg is not None and a.vararg.arg == name) or (a.kwarg is not None and a.kwarg.arg == name):
+            return True
+        if writes_to_name(f.node, name):
+            return True
+        for n in walk_no_nested(f.node):
+            if n is f.node:
+                continue
+            if isinstance(n, (ast.FunctionDef, ast.AsyncFunctionDef, ast.ClassDef)) and n.name == name:
+                return True
+            if isinstance(n, (ast.Import, ast.ImportFrom)) and any((al.asname or al.name.split(".")[0]) == name for al in n.names):
+                return True
+            if isinstance(n, ast.Name) and n.id == name and isinstance(n.ctx, (ast.Store, ast.Del)):
+                return True
+            if isinstance(n, ast.ExceptHandler) and n.name == name:
+                return True
+        f = f.parent
+    return False
+
+
+def _module_function(prog, fi, e):
+    """Callable_ for a name / dotted name that denotes a function defined at module level (in fi's module or
+    imported into it): nothing but its parameters connects it to the creating scope (closure=False)."""
+    c = chain(e)
+    if c is None or _scope_binds(fi, c.split(".")[0]):
+        return None
+    m = prog.funcs.get(prog.resolve_in_module(fi.module, c))
+    if m is None or m.cls is not None or m.parent is not None or not isinstance(m.node, (ast.FunctionDef, ast.AsyncFunctionDef)):
+        return None
+    if m.node.decorator_list:
+        return None  # a decorated function is whatever its decorator returns
+    # the module-level name must have this one binding
+    others = [st for st in m.module.tree.body if st is not m.node and (
+        (isinstance(st, (ast.FunctionDef, ast.AsyncFunctionDef, ast.ClassDef)) and st.name == m.node.name)
+        or (isinstance(st, ast.Assign) and any(isinstance(t, ast.Name) and t.id == m.node.name for t in st.targets)))]
+    if others:
+        return None
+    return Callable_(m.node, {}, False, m)
+
+
+def invocation(prog, fi, call, depth=3):
+    """Callable_ describing the *activation* created by `call`: the callee (lambda, nested def, module-level function,
+    bound method, functools.partial over these) with the call's arguments bound to its open parameters (positional
+    and keyword).  For a coroutine function this is the coroutine object `f(a, b)`.  None when the callee or the
+    argument list (`*args`, `**kw`, too many arguments) is outside the vocabulary."""
+    if not isinstance(call, ast.Call) or any(isinstance(a, ast.Starred) for a in call.args) or any(k.arg is None for k in call.keywords):
+        return None
+    cb = resolve_callable(prog, fi, call.func, depth=depth)
+    if cb is None:
+        return None
+    a = cb.fnode.args
+    if len(call.args) > len([x for x in a.posonlyargs + a.args if x.arg not in cb.bind]):
+        return None
+    bind = dict(cb.bind)
+    # positional arguments fill the parameters that are not bound yet, in order (defaults included)
+    open_ = [x.arg for x in a.posonlyargs + a.args if x.arg not in cb.bind]
+    for p, v in zip(open_, call.args):
+        bind[p] = v
+    names = {x.arg for x in a.posonlyargs + a.args + a.kwonlyargs}
+    for k in call.keywords:
+        if k.arg not in names or k.arg in open_[: len(call.args)]:
+            return None
+        bind[k.arg] = k.value
+    return Callable_(cb.fnode, bind, cb.closure, cb.fi)
+
+
 def resolve_callable(prog, fi, e, flow=None, at=None, depth=3):
     cb = _resolve_callable(prog, fi, e, flow, at, depth)
     if cb is not None and cb.closure:
@@ -218,7 +291,13 @@ def _resolve_callable(prog, fi, e, flow=None, at=None, depth=3):
             return Callable_(defs[0], {}, True)
         if not defs and len(ws) == 1 and isinstance(ws[0], ast.Assign) and len(ws[0].targets) == 1 and isinstance(ws[0].targets[0], ast.Name):
             return resolve_callable(prog, fi, ws[0].value, flow, at, depth - 1)
+        if not defs and not ws:
+            return _module_function(prog, fi, e)
         return None
+    if isinstance(e, ast.Attribute) and chain(e) is not None and not (isinstance(e.value, ast.Name) and _scope_binds(fi, e.value.id)):
+        m = _module_function(prog, fi, e)
+        if m is not None:
+            return m
     if _is_partial(prog, fi, e) and e.args and not any(isinstance(a, ast.Starred) for a in e.args):
         inner = resolve_callable(prog, fi, e.args[0], flow, at, depth - 1)
         if inner is None:
@@ -389,6 +468,8 @@ class Flow:
         fn = m.node
         if any(isinstance(n, (ast.Yield, ast.YieldFrom)) for n in walk_no_nested(fn)):
             return None
+        if isinstance(fn, ast.AsyncFunctionDef):
+            return None  # the value of the call is a coroutine object, not what the body returns
         # no recursion (the summary of a summary must terminate)
         if any(isinstance(n, ast.Call) and (call_name(n) or "").split(".")[-1] == fn.name for n in ast.walk(fn)):
             return None
@@ -596,6 +677,63 @@ class Flow:
 
     def is_iteration_of(self, v, field):
         return isinstance(v, Elem) and self.entry_read(v, field) is not None
+
+
+def _fi_of(prog, fnode):
+    for m in prog.funcs.values():
+        if m.node is fnode:
+            return m
+    return None
+
+
+def awaited_values(prog, fi, cb, depth=3):
+    """What the coroutine described by activation `cb` (see `invocation`) awaits, in terms of the scope that created
+    it: [(expression of the creating scope, late?)].  `late` is True for a free variable of a nested coroutine
+    function (its binding is read when the coroutine runs), False for an argument (evaluated where the coroutine
+    object is created).  Inside the coroutine function the awaited expression is followed through its locals
+    (`c = coroutine; await c`, `result = await coroutine`, `return await coroutine`) and through a further coroutine
+    function it merely delegates to (`await _inner(coroutine)`); awaits in unreachable code do not count."""
+    fn = cb.fnode
+    if depth <= 0 or not isinstance(fn, ast.AsyncFunctionDef):
+        return []
+    wfi = cb.fi if cb.fi is not None else _fi_of(prog, fn)
+    wflow = Flow(prog, wfi) if wfi is not None else Flow(prog, fi, fnode=fn)
+    a = fn.args
+    own = {x.arg for x in a.posonlyargs + a.args + a.kwonlyargs}
+    out = []
+
+    def outer_of(e, at):
+        """[(creating-scope expression, late?)] for expression e of the coroutine function evaluated at node `at`"""
+        res = []
+        for v, pth in wflow.origins(e, at):
+            if pth != () or not isinstance(v, ast.Name):
+                continue
+            o = cb.outer(v.id)
+            if o is not None:
+                res.append((o, cb.closure and v.id not in own))
+        return res
+
+    for n in walk_no_nested(fn):
+        if not isinstance(n, ast.Await):
+            continue
+        ids = wflow.rn(n)
+        if not ids:
+            continue
+        for v, pth in wflow.origins(n.value, ids[0]):
+            if pth != ():
+                continue
+            if isinstance(v, ast.Name):
+                out.extend(outer_of(v, ids[0]))
+            elif isinstance(v, ast.Call):
+                inner = invocation(prog, wfi if wfi is not None else fi, v, depth=depth - 1)
+                if inner is None:
+                    continue
+                at_v = wflow.site(v, ids[0])
+                for o2, late2 in awaited_values(prog, wfi if wfi is not None else fi, inner, depth - 1):
+                    # o2 lives in the coroutine function's own scope: an argument is evaluated at the inner call, a
+                    # free variable of a doubly nested coroutine function when that one runs (the end of this body)
+                    out.extend(outer_of(o2, wflow.cfg.exit if late2 else at_v))
+    return out
 
 
 def entry_component(kind, path):
